@@ -45,6 +45,9 @@ PROPS = {
     'C11': dict(units=['data'], witness=None,
                 assumptions=["REDUCED to the specs-side half: reads()/writes() of ReadStorage and WriteStorage list exactly the resources their fetch() borrows, with the right mode. That shred's dispatcher stages systems by these declarations, runs each system exactly once, respects dependencies and never hits a borrow conflict is a property of the shred dependency and of concurrent execution: assumed, not decided here",
                              "which resource a handle borrows is fixed by its type (Fetch<'a, R> / FetchMut<'a, R> borrow resource R: shred's fetch is TypeId-indexed); ResourceId::new::<R>() is abstracted by rid::<R>()"]),
+    'C20': dict(units=['world', 'join', 'marker'], witness='alloc',
+                assumptions=[HEADROOM, "REDUCED: determinism is shown for what is under contract: every C20-tagged postcondition pins the result and the new abstract state as spec FUNCTIONS of the old abstract state and the arguments (index = last of free list else counter; batch-kill stop position unique; merge returns killed indices ascending; join keys = ascending enumeration of the mask; marker ids from a counter), and lemma_deterministic composes this over whole allocator histories",
+                             "OUTSIDE: event streams beyond the per-operation append (C12), serialised output and the serde paths (C14 is not applicable), SimpleMarkerAllocator::maintain (iterator adaptors), HashMapStorage::clean's drop order, cross-process replay; hash-map iteration is never used by code under contract (vstd gives HashMap no iteration order, so a contract that pinned a result computed from it could not verify)"]),
     'C05': dict(units=['world', 'data', 'storage'], witness='alloc',
                 assumptions=[HEADROOM, "WorldExt::delete_components is an ASSUMED contract (its body iterates shred's MetaTable<dyn AnyStorage>): it removes exactly the given indices from every listed storage and touches nothing else",
                              "World accessors (entities_mut, write_resource) are stubs with the documented shred behaviour; LazyUpdate::maintain is unconstrained"]),
@@ -53,6 +56,10 @@ PROPS = {
 TB = "Trusted: prelude stubs for hibitset / NonZeroI32 / atomics / Vec::extend (assumed contracts), N3 sequentialisation, headroom preconditions, Verus+Z3, the vx extractor's closed list of normalisations (each application recorded in the evidence)."
 
 MANIFEST_TEXT = {
+    'C20': dict(
+        level="Reduced: for the allocator, world-level deletion, join iteration and marker-id allocation, the postconditions verified by Verus are functional (result and successor abstract state are spec functions of the predecessor state and arguments), so two equal single-threaded histories give equal handles, results and visit orders; lemma_deterministic proves this by induction over histories and lemma_kill_stop_unique/lemma_visit_order cover the two places where a relation rather than a function is stated. Serialised output, event streams and cross-process replay are outside.",
+        design_ref='DESIGN.md §5 C20', note=TB,
+        technique='Verus: functional (deterministic) postconditions + induction lemma over histories'),
     'C11': dict(
         level="Reduced unbounded proof: for ReadStorage and WriteStorage, Verus proves reads() and writes() return exactly the resource ids of the handles fetch() constructs (entities shared + storage shared, resp. entities shared + storage exclusive) and that Storage::new stores exactly those two handles. The scheduling half of the property (shred's dispatcher) is an assumed dependency contract and is stated as such in the evidence.",
         design_ref='DESIGN.md §5 C11', note='shred World/Fetch/ResourceId stubs; dispatcher behaviour assumed.',
